@@ -74,7 +74,10 @@ func (r *sseResponder) respond(
 	}
 	respBytes, err := r.marshalResponse(resp)
 	if err != nil {
-		return err
+		// The result cannot be encoded: answer with an internal error instead of nothing.
+		if respBytes, err = r.marshalResponse(encodingErrorResponse(resp, err)); err != nil {
+			return err
+		}
 	}
 	return r.sendSSEEvent(w, respBytes)
 }
